@@ -641,8 +641,10 @@ def output_oracle(prefix, nodes, data, on, off, breakers, filters_used):
             return (f"{prefix}|raw|{bad[1]}|" + "+".join(sorted(set(filters_used))[:4]), f"raw {bad[1]!r} in output {out[:120]!r}")
         if bad:
             return (amp_signature({"breakers": breakers}), f"bare & in output {out[:120]!r}")
-    # enabling autoescape never changes output that contains no special characters
-    if "ok" in off and not has5(off["ok"]) and off["ok"] != out:
+    # enabling autoescape never changes output that contains no special characters (an object whose __html__ differs
+    # from its __str__ legitimately renders differently: the two settings read different methods)
+    twofaced = any(isinstance(v, dict) and "h" in v and v["h"] != v["t"] for v in data.values())
+    if "ok" in off and not twofaced and not has5(off["ok"]) and off["ok"] != out:
         strings = [s for s, _ in data_strings(data)] + [x for k, x in walk_exprs(nodes) if k == "lit"]
         if any(has5(s) for s in strings):
             return ("noop|escaped-value-observed", f"autoescape off: {off['ok'][:80]!r}, on: {out[:80]!r}")
@@ -1072,9 +1074,10 @@ def _chain_case_run(case):
 
 class FilterTaintStream(Stream):
     name = "filter-taint"
-    parallel = True
+    parallel = False  # ~1 ms CPU per case: a process pool only pays off for the thorough tier (set in cases())
 
     def cases(self, ctx):
+        self.parallel = ctx.tier == "thorough"
         rng = ctx.rng_for("filter-taint")
         out = []
         for i in range(ctx.scale(4000, 40000)):
@@ -1173,9 +1176,9 @@ class FilterPairsStream(FilterTaintStream):
 
     name = "filter-pairs"
     exhaustive = True
-    parallel = True
 
     def cases(self, ctx):
+        self.parallel = ctx.tier == "thorough"
         vs = _variants()
         inputs = [
             {"x": {"s": "<a> &amp; 'b\"&lt;%3C+", "m": False}, "y": {"s": "&<", "m": False}, "arr": {"a": [{"s": "<i>", "m": False}, {"s": "&amp;", "m": True}]}},
@@ -1195,9 +1198,10 @@ class FilterPairsStream(FilterTaintStream):
 
 class RenderStream(Stream):
     name = "render"
-    parallel = True
+    parallel = False
 
     def cases(self, ctx):
+        self.parallel = ctx.tier == "thorough"
         rng = ctx.rng_for("render")
         out = []
         for i in range(ctx.scale(1500, 15000)):
@@ -1274,6 +1278,7 @@ class RenderOffStream(RenderStream):
     name = "render-off"
 
     def cases(self, ctx):
+        self.parallel = ctx.tier == "thorough"
         rng = ctx.rng_for("render-off")
         out = []
         for i in range(ctx.scale(500, 5000)):
@@ -1316,7 +1321,8 @@ class SafeValuesStream(Stream):
             s = gen_str(rng, 1, 5)
             if i % 5 == 4:
                 s = s.replace("\n", "").replace("\r", "")
-            out.append({"t": i % len(self.TEMPLATES), "s": s, "obj": rng.chance(25)})
+            t = i % len(self.TEMPLATES)
+            out.append({"t": t, "s": s, "obj": rng.chance(25) and self.TEMPLATES[t][1] != 0})
         return out
 
     def impl(self, case):
@@ -1336,8 +1342,6 @@ class SafeValuesStream(Stream):
         exp = obs["expect"]
         if obs["k"] == 0:
             exp = re.sub(r"\r?\n", "", case["s"])
-        if case["obj"] and case["t"] in (5, 13, 12, 6) :
-            pass
         if obs["on"]["ok"] != exp:
             return (f"safe|changed|t{case['t']}" + ("|obj" if case["obj"] else ""), f"{obs['src']} with v = Markup({case['s']!r}) gave {obs['on']['ok']!r}")
         return None
